@@ -139,26 +139,26 @@ def decsGo (B P : Nat) (m : Mdl) : List Nat → List String → (String × Bool)
 
 def showDigest (count : Nat) (h : UInt64) : String := toHex count ++ " " ++ toHex h.toNat
 
-def decSweepGo (B P : Nat) (m : Mdl) (hi : Nat) : Nat → Nat → UInt64 → (String × Bool)
-  | 0, _, h => (showDigest hi h, false)   -- unreachable for fuel = hi - lo + 1
+def decSweepGo (B P : Nat) (m : Mdl) (n hi : Nat) : Nat → Nat → UInt64 → (String × Bool)
+  | 0, _, h => (showDigest n h, false)   -- unreachable for fuel = hi - lo + 1
   | fuel + 1, q, h =>
-    if q ≥ hi then (showDigest (hi) h, false) else
+    if q ≥ hi then (showDigest n h, false) else
     match mDec B P q m with
     | .na => ("n/a", false)
     | .unsupported => ("unsupported", false)
     | .fault f => (faultStr f, true)
-    | .val (s, c, p) => decSweepGo B P m hi fuel (q + 1) (digestStep (digestStep (digestStep h s) c) p)
+    | .val (s, c, p) => decSweepGo B P m n hi fuel (q + 1) (digestStep (digestStep (digestStep h s) c) p)
 
-def encSweepGo (B P : Nat) (m : Mdl) (hi : Nat) : Nat → Nat → UInt64 → (String × Bool)
-  | 0, _, h => (showDigest hi h, false)
+def encSweepGo (B P : Nat) (m : Mdl) (n hi : Nat) : Nat → Nat → UInt64 → (String × Bool)
+  | 0, _, h => (showDigest n h, false)
   | fuel + 1, s, h =>
-    if s ≥ hi then (showDigest hi h, false) else
+    if s ≥ hi then (showDigest n h, false) else
     match mEnc B P s m with
     | .na => ("n/a", false)
     | .unsupported => ("unsupported", false)
     | .fault f => (faultStr f, true)
-    | .val none => encSweepGo B P m hi fuel (s + 1) (digestStep h 0)
-    | .val (some (c, p)) => encSweepGo B P m hi fuel (s + 1) (digestStep (digestStep (digestStep h 1) c) p)
+    | .val none => encSweepGo B P m n hi fuel (s + 1) (digestStep h 0)
+    | .val (some (c, p)) => encSweepGo B P m n hi fuel (s + 1) (digestStep (digestStep (digestStep h 1) c) p)
 
 def outR {α : Type} (r : R α) (m : Mdl) (k : α → (Mdl × String × Bool)) : (Mdl × String × Bool) :=
   match r with
@@ -171,6 +171,10 @@ def outR {α : Type} (r : R α) (m : Mdl) (k : α → (Mdl × String × Bool)) :
 def doOp (B P : Nat) (m : Mdl) (seg : List String) : Option (Mdl × String × Bool) :=
   match seg with
   | ["table"] => some (outR (mTable B P m) m (fun t => (m, showTable t, false)))
+  | ["syms"] => some (outR (mTable B P m) m (fun t => (m, showList (t.map (·.1)), false)))
+  | ["has", s] => do
+      let s ← parseHex s
+      some (outR (mEnc B P s m) m (fun r => (m, showBool r.isSome, false)))
   | ["support"] => some (outR (mSupport m) m (fun n => (m, toHex n, false)))
   | ["enc", s] => do
       let s ← parseHex s
@@ -189,12 +193,12 @@ def doOp (B P : Nat) (m : Mdl) (seg : List String) : Option (Mdl × String × Bo
   | ["decsweep", lo, hi] => do
       let lo ← parseHex lo
       let hi ← parseHex hi
-      let (o, d) := decSweepGo B P m hi (hi - lo + 1) lo digestInit
+      let (o, d) := decSweepGo B P m (hi - lo) hi (hi - lo + 1) lo digestInit
       some (m, o, d)
   | ["encsweep", lo, hi] => do
       let lo ← parseHex lo
       let hi ← parseHex hi
-      let (o, d) := encSweepGo B P m hi (hi - lo + 1) lo digestInit
+      let (o, d) := encSweepGo B P m (hi - lo) hi (hi - lo + 1) lo digestInit
       some (m, o, d)
   | [op] =>
       if ["view", "tolookup", "togenenc", "togendec", "togenlookup", "ascontig", "intocontig",
